@@ -6,6 +6,7 @@ from .brokergen import CONTRACT, SIGN
 HARNESS = "c05"
 CONST_GROUPS = ["message"]
 TIMEOUT = 3000
+STALL = 600      # the trace grows once per child process (16 sessions)
 RULE = ("one case = one session: reset <2-4 brokers>, then a random interleaving of client activity (new connections with "
         "chosen local ids, sub / unsub / close on 3-4 channels incl. '+' filters, bursts sub;unsub;sub within one clock "
         "reading by one or several connections of one broker, occasionally a clock that does not advance) with transport "
@@ -30,18 +31,26 @@ ASSUMPTIONS = ["subscription keys in payloads are the canonical encoding of (pee
                "message frames between brokers travel over the direct connection and arrive (C19 covers the frame queue)",
                "share-group subscriptions ($share) are not used"]
 CLAIM = {
-    "text": "Lean 4 theorems over the executable model of Swarm.Notify / merge (D5-repaired) / findPeer / onPeerOnline / "
-            "onPeerOffline / Peer counters and of the gossip transport: for every schedule of client and transport events "
-            "on which no flagged branch is taken, every broker's peer counters equal the number of active entries of that peer "
-            "and ssid in its replicated state and its remote trie entries are exactly the (ssid, peer) pairs with a positive "
-            "counter (routing_inv, by induction over all event lists); with equal states, active peers and truthful own entries a "
-            "publish is forwarded to exactly the brokers holding a live matching subscription and reaches each subscriber once "
-            "(quiescent_routing). Tied to /repo by a differential run of 2-4 real broker.Service instances over a simulated mesh "
-            "transport against the compiled model.",
-    "note": "Trusted: Lean kernel; harness transport simulation; state codec; scripted clock and peer activity. Flagged branches "
-            "are recorded findings (peer garbage collection / re-creation, transitions while a peer is inactive, non-advancing clock).",
-    "technique": "Lean 4 proof (invariant over all schedules of an explicit small-step system) + differential correspondence check "
-                 "model vs. real Go brokers over a simulated gossip transport",
+    "text": "Lean 4 theorems over the executable model (Model/Cluster.lean) of Swarm.Notify / merge (D5-repaired) / findPeer / "
+            "onPeerOnline / onPeerOffline / Peer counters and activity / the trie's remote entries, and of the gossip transport "
+            "(gossipSender buckets with union coalescing, per-link FIFO, relay of returned deltas, complete-state gossip, link down/up, "
+            "peer garbage collection). routing_inv: after EVERY list of events (all client histories x all transport schedules, any "
+            "number of brokers) on which no routing flag is raised, on every broker and for every remote peer and ssid the peer counter "
+            "equals the number of active entries in the replicated state and the trie routes the ssid to the peer iff that number is "
+            "positive; proved per step kind (routing_inv_step) and for a merge of any payload in any walk order of the delta "
+            "(merge_keeps_routing); ties and non-advancing clocks do not matter for it (tie_add_bias, burst_tie). quiescent_routing_run: "
+            "on flag-free schedules, once all brokers hold equal add/remove times (C04) and known peers are active, a publish on any "
+            "broker is forwarded to exactly the other brokers with a live matching local subscription; delivered_once: each such "
+            "subscriber is written to once, nothing is forwarded again. Every flagged branch has a refutation witness proved by decide "
+            "and is a recorded finding replayed on the real brokers. Tied to /repo by a differential run of 2-4 real broker.Service "
+            "instances over a simulated mesh transport against the compiled model, with the invariant and the client history as "
+            "independent spec columns.",
+    "note": "Trusted: Lean kernel; harness transport simulation (mesh itself is not run); state codec; scripted clock and peer "
+            "activity; C01 for the step from the route set to trie.Lookup; equality of states at quiescence is C04's theorem, taken as "
+            "hypothesis. Requires the D4 (payload union) and D5 (merge by state transition) repairs in /repo. Five recorded findings "
+            "(peer garbage collection / re-creation, transitions while a peer is inactive, id collision, non-advancing clock).",
+    "technique": "Lean 4 proof (invariant over all schedules of an explicit small-step system, refutation witnesses by decide) + "
+                 "differential correspondence check model vs. real Go brokers over a simulated gossip transport",
 }
 
 CHANNELS = [b"a/", b"b/", b"a/b/", b"a/+/", b"+/", b"b/a/"]
@@ -173,7 +182,7 @@ class Sess:
 
     def transport_event(self):
         rng = self.rng
-        r = rng.randrange(40)
+        r = rng.randrange(41)
         a, b = self.link()
         if r < 12:
             self.ops.append("pick %d %d %d" % (a, b, a if rng.randrange(4) else rng.randrange(1, self.n + 1)))
@@ -210,6 +219,10 @@ class Sess:
                     self.ops.append("linkup %d %d" % (x, b))
                     if rng.randrange(2):
                         self.ops.append("touch %d %d" % (x, b))
+        elif r < 40 and rng.randrange(3) == 0:
+            # a payload nobody in the session produced: a tombstone that names the receiver itself or an unknown peer
+            who = a if rng.randrange(2) else 9
+            self.ops.append("inject %d %d %d %s 0 %d" % (a, who, 50 + rng.randrange(3), hx(rng.choice(self.chans)), self.clock))
         else:
             pubs = sorted(self.clients)
             self.ops.append("pub %s %s %s" % (rng.choice(pubs), hx(self.pubchan()), hx(rbytes(rng, 2))))
@@ -286,7 +299,7 @@ def exhaustive(rng):
 
 def gen(rng, tier):
     ops = []
-    for _ in range(budget(tier, 36, 400)):
+    for _ in range(budget(tier, 30, 400)):
         ops += session(rng, tier, calm=(rng.randrange(3) == 0))
     if tier == "thorough":
         ops += exhaustive(rng)
